@@ -537,7 +537,8 @@ def save_score_midi(
 
     # add the time/key sigs to their corresponding tracks
     for part, m_events in meta_events.items():
-        tracks = part_track_map[part]
+        # a part without notes (only rests) is not written to any track
+        tracks = part_track_map.get(part, ())
         for tr in tracks:
             for t, me in m_events.items():
                 events[tr][t] = [(-1, m) for m in me] + events[tr][t]
